@@ -100,6 +100,16 @@ struct Engine
         }
         if (ce.get_allocator().get_arena() != me.arena) viol("C08,C12", "allocator_identity", fmt("%s: get_allocator() is arena %d, expected %d", who, ce.get_allocator().get_arena(), me.arena));
         const auto a = G::addresses(ce);
+        {
+            // an element whose fields occupy no bytes at all (every FixedSize span empty) needs no storage: a null block is fine
+            bool zero = true;
+            for (size_t k = 0; k < NF; ++k) zero = zero && fields[k].kind == 'F' && me.e.f[k].empty();
+            if (zero && a[0].begin == 0)
+            {
+                pm[i].owns_block = false;
+                return;
+            }
+        }
         const Block* blk = ledger().find_live(a[0].begin);
         // an element whose fields occupy no bytes may own a zero-size block
         if (!blk)
